@@ -42,9 +42,10 @@ func (c *cache) put(addr oid.Address, data []byte) error {
 		return err
 	}
 
-	c.objCounters.Add(addr, objSz)
-	c.metrics.IncWCObjectCount()
-	c.metrics.AddWCSize(objSz)
+	if c.objCounters.Add(addr, objSz) {
+		c.metrics.IncWCObjectCount()
+	}
+	c.metrics.SetWCSize(c.objCounters.Size())
 	storagelog.Write(c.log,
 		storagelog.AddressField(addr),
 		storagelog.StorageTypeField(wcStorageType),
